@@ -143,12 +143,23 @@ fn f64_of(line: &str) -> String {
 /// process.  Case: `<attr> <rev> [cl:<flag>=<attr>,<flag>=<attr>,...]`: without the third
 /// token the command line is the one flag `--sort <attr>` / `--sortr <attr>`; with it the flags
 /// are passed in that order (the first two tokens then state which choice is specified to
-/// win: the last flag).  Output: `<registry items> => <depth:name ...>`.
+/// win: the last flag); `ev:sort=<attr>` / `ev:sortr=<attr>` instead sets DIVAN_SORT /
+/// DIVAN_SORTR for the child and passes no flag.  Output: `<registry items> => <depth:name ...>`.
 fn e2e(line: &str) -> String {
     let t = hxlib::toks(line);
     let exe = std::env::current_exe().expect("exe").with_file_name("hx-sort-e2e");
+    let env_choice: Option<(String, String)> = t.get(2).and_then(|x| x.strip_prefix("ev:")).map(|e| {
+        let (k, a) = e.split_once('=').expect("ev pair");
+        assert!(k == "sort" || k == "sortr", "env kind");
+        (format!("DIVAN_{}", k.to_uppercase()), a.to_string())
+    });
     let run = |args: &[&str]| -> String {
-        let out = std::process::Command::new(&exe).args(args).output().expect("spawn hx-sort-e2e");
+        let mut cmd = std::process::Command::new(&exe);
+        cmd.args(args).env_remove("DIVAN_SORT").env_remove("DIVAN_SORTR");
+        if let Some((k, a)) = &env_choice {
+            cmd.env(k, a);
+        }
+        let out = cmd.output().expect("spawn hx-sort-e2e");
         if !out.status.success() {
             panic!("child failed: {}", String::from_utf8_lossy(&out.stderr));
         }
@@ -165,6 +176,7 @@ fn e2e(line: &str) -> String {
                 args.push(attr.to_string());
             }
         }
+        None if env_choice.is_some() => {}
         None => {
             args.push(if t[1] == "1" { "--sortr" } else { "--sort" }.to_string());
             args.push(t[0].to_string());
